@@ -129,6 +129,18 @@ class C16(Prop):
                 # keep component sections dictionaries
                 files.append(_fix_components(f, rng))
         sets = [gen_set(rng, files) for _ in range(rng.choice([0, 0, 1, 1, 2, 3, 4]))]
+        if sets and rng.random() < 0.3:
+            # the same key path given again later (with other overrides in between), and an override
+            # below / above a path set earlier: overrides apply strictly in command-line order
+            base = rng.choice(sets)
+            if "=" in base:
+                key = base.split("=", 1)[0]
+                extra = [f"{key}={rng.choice(['7', '{z: 1}', 'again', '{a: {b: 3}}'])}"]
+                if rng.random() < 0.6:
+                    extra.insert(0, f"{key}.a={rng.choice(['8', '{c: 4}'])}")
+                if rng.random() < 0.4:
+                    extra.append(f"{key}.z=9")
+                sets += extra
         defined = []
         for f in files:
             s = f.get("services")
